@@ -72,7 +72,7 @@ def parser_for(o, order=0):
         prods['MAP'] = llparser.MapProds('{', 'WORD', ':', 'VALUE', ',', '}', allow_final_delimiter=o['mapafd'])
     else:   # bare: a bracket-less list at the top, bracketed lists / maps inside
         prods['E'] = [('TOPLIST',)]
-        prods['TOPLIST'] = llparser.ListProds(None, 'VALUE', delim, None, allow_final_delimiter=(False if o['afd'] == 'no' else None))
+        prods['TOPLIST'] = llparser.ListProds(None, item, delim, None, allow_final_delimiter=(False if o['afd'] == 'no' else None))
         prods['LIST'] = llparser.ListProds('[', item, delim, ']', allow_final_delimiter=_afd(o))
         prods['MAP'] = llparser.MapProds('{', 'WORD', ':', 'VALUE', ',', '}', allow_final_delimiter=o['mapafd'])
     # the order in which the symbols are listed is a configuration dimension (helpers before users, ...)
@@ -228,14 +228,14 @@ def run_case(job):
         full_want = ('NODE', 'E', [[[it] if isinstance(it, str) else [] for it in items]])
     elif o['top'] == 'baremap':
         toks = toks[1:-1]              # the top map has no brackets; no pairs = empty text = {}
-        full_want = ('NODE', 'E', [want])
-        if toks and toks[-1] == ',':
-            return None                # a final delimiter of a bracket-less map is not judged
+        full_want = ('NODE', 'E', [want])     # a final delimiter is taken (or refused: bad) as in a map with brackets
     elif o['top'] == 'bare':
         toks = toks[1:-1]              # the top list has no brackets
         full_want = ('NODE', 'E', [want])
-        if toks and toks[-1] == ',':
-            case = dict(case, bad=True)    # a bracket-less list never takes a final delimiter
+        if toks and toks[-1] == ',' and not o['nullable']:
+            case = dict(case, bad=True)    # a bracket-less list never takes a final delimiter (with nullable items the
+                                           # trailing delimiter is followed by an empty item: the spec renders that only
+                                           # for a last item that is empty)
     else:
         full_want = ('NODE', 'E', [want])
     text = to_text(toks, rnd) if toks else ''
@@ -349,8 +349,9 @@ def run_case_reps(job):
 
 
 def run(ctx):
-    ctx.assumptions += ['data over atoms a, b and keys k, m; a list whose last item is empty is not generated (with a nullable '
-                        'item symbol "[a,]" is inherently ambiguous; the documented reading "final delimiter" is adopted)',
+    ctx.assumptions += ['data over atoms a, b and keys k, m; a list in brackets whose last item is empty is not generated (with a nullable '
+                        'item symbol "[a,]" is inherently ambiguous; the documented reading "final delimiter" is adopted); at the top of a '
+                        'bracket-less list "a," is [a, None]',
                         'sequences are exercised with terminal elements only']
     r = ctx.tlc('llparser/LLTemplates.tla', 'SPECIFICATION Spec\nCHECK_DEADLOCK FALSE\nCONSTANTS\n  Depth = 1\n  Width = %d\n  Emit = TRUE\n  Tops = {}\n'
                 'INVARIANT FinalDelimiterAddsNothing\n' % (2 if ctx.quick else 3), workers=16, timeout=3000, heap='12g')
